@@ -8,10 +8,12 @@ import (
 	"os/exec"
 	"path/filepath"
 	"runtime"
+	"runtime/pprof"
 	"sort"
 	"strconv"
 	"strings"
 	"sync"
+	"sync/atomic"
 	"time"
 )
 
@@ -36,6 +38,7 @@ func main() {
 		if len(os.Args) < 3 {
 			usage()
 		}
+		startWatchdog()
 		os.Exit(cmdReplay(os.Args[2], true))
 	case "selftest":
 		os.Exit(cmdSelftest(os.Args[2:]))
@@ -98,23 +101,23 @@ type FoundViolation struct {
 }
 
 type WorkerResult struct {
-	Runs        int                      `json:"runs"`
-	Next        int                      `json:"next"`
-	Hashes      []uint64                 `json:"hashes"`
-	AllHashes   int                      `json:"all_hashes"`
-	Probes      map[string]int           `json:"probes"`
-	Faults      map[string]int           `json:"faults"`
-	Steps       int64                    `json:"steps"`
-	Pre         int64                    `json:"pre"`
-	SimServerUs int64                    `json:"sim_server_us"`
-	SimWallNs   int64                    `json:"sim_wall_ns"`
-	Samples     []interface{}            `json:"samples"`
-	Violations  []FoundViolation         `json:"violations"`
-	Sub         map[string][]int         `json:"sub"`
-	Extra       map[string]int           `json:"extra"`
-	InfraErr    string                   `json:"infra_err,omitempty"`
-	RunHashes   map[string]string        `json:"run_hashes,omitempty"` // selftest: index -> hash
-	TimedOut    bool                     `json:"timed_out"`
+	Runs        int               `json:"runs"`
+	Next        int               `json:"next"`
+	Hashes      []uint64          `json:"hashes"`
+	AllHashes   int               `json:"all_hashes"`
+	Probes      map[string]int    `json:"probes"`
+	Faults      map[string]int    `json:"faults"`
+	Steps       int64             `json:"steps"`
+	Pre         int64             `json:"pre"`
+	SimServerUs int64             `json:"sim_server_us"`
+	SimWallNs   int64             `json:"sim_wall_ns"`
+	Samples     []interface{}     `json:"samples"`
+	Violations  []FoundViolation  `json:"violations"`
+	Sub         map[string][]int  `json:"sub"`
+	Extra       map[string]int    `json:"extra"`
+	InfraErr    string            `json:"infra_err,omitempty"`
+	RunHashes   map[string]string `json:"run_hashes,omitempty"` // selftest: index -> hash
+	TimedOut    bool              `json:"timed_out"`
 }
 
 func newRun(p *PropDef, tier string, master uint64, index int, keep bool) *Run {
@@ -140,6 +143,7 @@ func cmdWorker(args []string) int {
 		return 2
 	}
 	res := &WorkerResult{Probes: map[string]int{}, Faults: map[string]int{}, Sub: map[string][]int{}, Extra: map[string]int{}}
+	startWatchdog()
 	if *hashes {
 		res.RunHashes = map[string]string{}
 	}
@@ -153,6 +157,7 @@ func cmdWorker(args []string) int {
 			break
 		}
 		_ = os.WriteFile(*out+".cur", []byte(strconv.Itoa(i)), 0666)
+		atomic.AddInt64(&progressCounter, 1)
 		r := newRun(p, *tier, *seed, i, res.Runs < 2 && i < 4**step)
 		err := execute(p, r)
 		if err != nil {
@@ -368,11 +373,12 @@ func cmdCheck(id, tier string) int {
 	if len(crashes) > 0 {
 		idx := crashes[0]
 		rp := writeCrashReplay(p, tier, master, idx)
-		if replayCrashes(rp) {
+		how := replayCrashes(rp)
+		if how == "crash" || (how == "hang" && id == "C20") {
 			fmt.Printf("VIOLATION property=%s replay=%s\n", id, rp)
-			fmt.Printf("  class=%s/process-crash: the worker process died (fatal runtime error) at run index %d\n", id, idx)
-			unknown = append(unknown, id+"/process-crash")
-			vioOut = append(vioOut, map[string]interface{}{"class": id + "/process-crash", "replay": rp})
+			fmt.Printf("  class=%s/process-%s: the worker process died or hung (fatal runtime error / real blocking) at run index %d\n", id, how, idx)
+			unknown = append(unknown, id+"/process-"+how)
+			vioOut = append(vioOut, map[string]interface{}{"class": id + "/process-" + how, "replay": rp})
 			infra = nil
 			exit = 1
 		}
@@ -532,14 +538,22 @@ func writeCrashReplay(p *PropDef, tier string, master uint64, idx int) string {
 	return path
 }
 
-func replayCrashes(path string) bool {
+// replayCrashes re-executes a seed-only replay in a fresh process: "crash" = the process died
+// again, "hang" = the watchdog fired again, "" = it did not reproduce.
+func replayCrashes(path string) string {
 	cmd := exec.Command(selfExe(), "replay", path)
+	cmd.Env = append(os.Environ(), "VERIF_WATCHDOG=30")
 	err := cmd.Run()
 	if ee, ok := err.(*exec.ExitError); ok {
 		c := ee.ExitCode()
-		return c != 0 && c != 1 && c != 3
+		if c == 4 {
+			return "hang"
+		}
+		if c != 0 && c != 1 && c != 3 && c != 2 {
+			return "crash"
+		}
 	}
-	return false
+	return ""
 }
 
 func runReplay(p *PropDef, rf *ReplayFile, keep bool) (*Run, error) {
@@ -658,4 +672,33 @@ func cmdOne(args []string) int {
 		return 1
 	}
 	return 0
+}
+
+// startWatchdog: a simulated step takes microseconds; if nothing is scheduled for a long real
+// time some goroutine is blocked on something the simulator cannot see. Exit code 4.
+func startWatchdog() {
+	limit := 90
+	if v := os.Getenv("VERIF_WATCHDOG"); v != "" {
+		if n, err := strconv.Atoi(v); err == nil && n > 0 {
+			limit = n
+		}
+	}
+	go func() {
+		last := atomic.LoadInt64(&progressCounter)
+		idle := 0
+		for {
+			time.Sleep(time.Second)
+			cur := atomic.LoadInt64(&progressCounter)
+			if cur != last {
+				last, idle = cur, 0
+				continue
+			}
+			idle++
+			if idle >= limit {
+				fmt.Fprintf(os.Stderr, "WATCHDOG: no scheduling event for %d s; goroutine dump follows\n", limit)
+				pprof.Lookup("goroutine").WriteTo(os.Stderr, 1)
+				os.Exit(4)
+			}
+		}
+	}()
 }
